@@ -100,6 +100,12 @@ CHECKS["C07"] = dict(
     technique="TLC exhaustive model checking of the registration/application state machine, TLC-generated cases replayed into PassManager, TLC trace validation of marker positions and InsertionContexts",
     ref="5/C07")
 
+CHECKS["C20"] = dict(
+    text="TLC exhaustively checks that the implementation-shaped RefNode forest of ReferenceCache (spec/RefCache.tla: parent/children/symbols, _referents, _references, direct referents; retarget linking trees, get_referent with path compression and pruning, lazily and partially consumed get_references, apply) refines ref: Sym -> (Block|None) x BOOLEAN after every action, for all histories up to length 5 (quick) / 6 (thorough) over 3 blocks x 3 symbols including retarget cycles, self-retarget and no-ops; the complete state graphs of five small machines (BlockOrdering incl. the linked-node level, OffsetMapping, IdentitySet, ReturnEdgeCache incl. its index dicts, make_return_cache with nesting, replacement, modification and injected exceptions) are checked the same way. Every distinct model state is bound to the code by frontier replay (a witness history plus every enabled operation, each on a fresh replay, run into the real containers), and TLC compares every returned value, observation and exception with the abstract model.",
+    note="Quick model-checks to depth 5 but replays all states up to depth 3 plus a seeded sample of deeper ones (exhaustive false); thorough replays every emitted state (exhaustive true). The RefCache state space is quotiented by node renaming and block/symbol permutations (canonical-form VIEW). Python set iteration order is uncontrolled; verdicts are order-independent.",
+    technique="TLA+/TLC refinement checking of a two-level spec, frontier replay (hidden-history VIEW) into the real containers, trace spec with exact equalities against the abstract model",
+    ref="5/C20")
+
 PENDING = {}
 
 
